@@ -18,8 +18,9 @@ RULE = ("directed multigraphs over 2-4 stylesheets (root t plus a, b, c), every 
 EXHAUSTIVE = {"quick": False, "thorough": False}
 TRUSTED = ["Spec/LoadRef.v: reference semantics (canonical files, stack-based loop detection) written from the property text",
            "the operating system resolves `.`/`..` as Model/LoadRun.v fs_isfile does (checked against the real file system on every run)",
-           "a run stopped by the operating system (stack overflow, or PATH_MAX after ~2000 nested `./` prefixes on a real file system) "
-           "is counted as non-termination (class 9) and corresponds to the model running out of fuel"]
+           "a run stopped by the operating system (stack overflow, or PATH_MAX after ~2000 nested `./` prefixes on a real file system: "
+           "an error whose message carries a path of more than 2500 characters) is counted as non-termination (class 9) and "
+           "corresponds to the model running out of fuel"]
 ASSUMPTIONS = ["loads are top-level directives with literal urls; every file of a world parses",
                "model fuel 60 nested loads: terminating runs of the generated worlds nest far less (a disagreement would be reported)"]
 TIMEOUT_PER_CASE = 40.0
